@@ -1,74 +1,20 @@
 (** * Model of the linear-system entry points (property C01), after the repairs of D1 and of the
     absolute symmetry tolerance:
-    - [linalg/utils.rs]: [is_symmetric] (relative tolerance), [is_positive_definite], [row_to_col_major],
-      [col_to_row_major], [diag_matrix], [solve], [solve_sys], [invert_matrix];
-    - [linalg/decomposition/cholesky.rs]: [try_cholesky] (the fallible sweep) and the repaired [cholesky];
+    - [linalg/utils.rs]: [row_to_col_major], [col_to_row_major], [diag_matrix], [solve], [solve_sys],
+      [invert_matrix] (the routing predicates [is_symmetric] (relative tolerance) and [is_positive_definite]
+      are in [Model/Subst.v], the fallible sweep [try_cholesky] and the repaired [cholesky] in
+      [Model/Cholesky.v]: one definition each, shared with property C11);
     - [linalg/array/matrix.rs]: [Solve<Vector>::solve], [Solve<Matrix>::solve], [Matrix::inv], [Matrix::eye].
 
     The solvers are written in a [Section] PARAMETRIC in the four factorisation routines they call
     ([try_chol], [chol_solve], [lu], [lu_solve]: flat row-major arrays, [None] = panic), so that the routing,
     the row/column-major conversions and the assembly are modelled (and proved) independently of how the
     factorisations are modelled.  [Model/SolveInst.v] instantiates the section with the models of
-    property C11 ([Model/LU.v], [Model/Cholesky.v], [Model/Subst.v]) and with [try_cholesky] below.
+    property C11 ([Model/LU.v], [Model/Cholesky.v], [Model/Subst.v]).
     Representation: as in [Model/Subst.v].  No proofs in this file. *)
 From Coq Require Import List Arith ZArith QArith Bool.
 From Compute Require Import Base.Ops Base.ListMat Model.Reduce Model.MatMul Model.Subst Model.Cholesky.
 Import ListNotations.
-
-(** ** Routing predicates (repaired) and the fallible Cholesky sweep *)
-Section Predicates.
-  Context {T : Type} (O : Ops T).
-  Local Notation z := (zero O).
-
-  (** [let (x, y) = (m[i*n+j], m[j*n+i]); if (x - y).abs() > f64::EPSILON * x.abs().max(y.abs()) { return false }] *)
-  Definition sym_entry_ok (x y : T) : bool :=
-    negb (ltb O (mul O (eps O) (fmax O (abs O x) (abs O y))) (abs O (sub O x y))).
-  Definition is_symmetric_rel_rows (M : list (list T)) (n : nat) : bool :=
-    forallb (fun i => forallb (fun j => sym_entry_ok (ent z M i j) (ent z M j i)) (seq i (n - i))) (seq 0 n).
-
-  (** [is_symmetric(m)]: [is_square(m).unwrap()], then the test *)
-  Definition is_symmetric_rel (a : list T) : option bool :=
-    let* n := is_square (length a) in Some (is_symmetric_rel_rows (unflatten a n n) n).
-  (** [is_positive_definite(m)]: symmetric (as above) and no diagonal entry [<= 0.] *)
-  Definition is_pd_pred (a : list T) : option bool :=
-    let* n := is_square (length a) in
-    let M := unflatten a n n in
-    Some (is_symmetric_rel_rows M n && diag_positive_rows O M n).
-
-  (** the pivot of row [i]: [let d = a[i*n+i] - s] with [s = dot(l[i*n..i*n+i], l[i*n..i*n+i])];
-      [r] is the part of row [i] already computed (entries 0..i-1) *)
-  Definition chol_pivot (A : list (list T)) (i : nat) (r : list T) : T :=
-    sub O (ent z A i i) (dot_raw O (firstn i r) r).
-
-  (** row [i] of [try_cholesky]: the off-diagonal entries are those of [Cholesky.chol_entry]; on the
-      diagonal [if !(d > 0.) { return None }; l[i*n+i] = d.sqrt()] *)
-  Definition try_chol_step (A L : list (list T)) (n i : nat) (acc : option (list T)) (j : nat)
-    : option (list T) :=
-    let* r := acc in
-    if j =? i then
-      let d := chol_pivot A i r in
-      if ltb O z d then Some (r ++ [sqrt O d]) else None
-    else Some (r ++ [chol_entry O false A L n i r j]).
-  Definition try_chol_row (A L : list (list T)) (n i : nat) : option (list T) :=
-    let* r := fold_left (try_chol_step A L n i) (seq 0 (S i)) (Some []) in
-    Some (pad O n r).
-  Definition try_chol_rows_step (A : list (list T)) (n : nat) (acc : option (list (list T))) (i : nat)
-    : option (list (list T)) :=
-    let* L := acc in let* row := try_chol_row A L n i in Some (L ++ [row]).
-  Definition try_chol_rows (A : list (list T)) (n : nat) : option (list (list T)) :=
-    fold_left (try_chol_rows_step A n) (seq 0 n) (Some []).
-
-  (** [try_cholesky(a)]: outer [None] = panic ([assert!(is_symmetric(a))], [is_square(a).unwrap()]),
-      [Some None] = a pivot is not positive ([return None]) *)
-  Definition try_cholesky (a : list T) : option (option (list T)) :=
-    let* n := is_square (length a) in
-    let M := unflatten a n n in
-    let* _ := guard (is_symmetric_rel_rows M n) in
-    Some (option_map flatten (try_chol_rows M n)).
-  (** repaired [cholesky(a) = try_cholesky(a).expect("matrix is not positive definite")] *)
-  Definition cholesky_checked (a : list T) : option (list T) :=
-    let* r := try_cholesky a in r.
-End Predicates.
 
 (** ** The solvers, parametric in the factorisation routines *)
 Section Solve.
@@ -99,7 +45,7 @@ Section Solve.
        if let Some(l) = chol { cholesky_solve(&l, .) } else { let (lu, piv) = lu(a); lu_solve(&lu, &piv, .) }]
       returned as the per-right-hand-side solver *)
   Definition factor (a : list T) : option (list T -> option (list T)) :=
-    let* pd := is_pd_pred O a in
+    let* pd := is_positive_definite O a in
     let* c := if pd then try_chol a else Some None in
     match c with
     | Some l => Some (chol_solve l)
